@@ -240,6 +240,17 @@ def crash_oracle(it):
     order = [i for i in ids if i in ((7, 0), (7, 1), (9, 0))]
     if order != sorted(order):
         return "messages delivered out of order: %s" % order
+    if c["observe"] == "timeout_idle":
+        waits = [e["waits"] for e in rec["log"] if isinstance(e, dict) and "waits" in e]
+        for w, us in (waits[0] if waits else []):
+            if w == "Empty" and us < 240000:
+                return ("try_recv_timeout(250 ms) on a connected, idle channel (a sender survives; the crashed sender left %s) reported 'empty' after only %d us"
+                        % ("an unfinished message behind" if ch["t_first"] and not ch["t_returned"] else "nothing unfinished behind", us))
+            if w not in ("Empty",):
+                return "try_recv_timeout on a connected channel with a surviving sender reported %s" % w
+        if rec.get("fds_after") != rec.get("fds_before"):
+            return "descriptors left behind: %s -> %s" % (rec.get("fds_before"), rec.get("fds_after"))
+        return None
     if c["survivor"]:
         if "Disconnected" in words:
             return "receiver was told 'disconnected' although another sender handle survives"
@@ -256,6 +267,10 @@ def crash_oracle(it):
             return "no surviving sender, yet the receiver was not told 'disconnected' (log ends %s)" % rec["log"][-2:]
     if any(a != "Disconnected" for a in rec["att_state"]):
         return "attachments of the interrupted message were not released: %s" % rec["att_state"]
+    if rec.get("fds_after") != rec.get("fds_before") or rec.get("maps_after") != rec.get("maps_before"):
+        return ("after the crashed sender's messages were received (or discarded) and every handle was dropped, the receiving process holds %s descriptors / %s mappings "
+                "instead of %s / %s (the interrupted message carried %d channels and %d regions)"
+                % (rec.get("fds_after"), rec.get("maps_after"), rec.get("fds_before"), rec.get("maps_before"), c["natt"], c.get("nreg", 0)))
     return None
 
 
@@ -290,10 +305,11 @@ def crash_model_term(it):
 
 
 def run_crash(binp, S, cases):
-    lines = ["id=%d len=%d k=%d survivor=%d natt=%d observe=%s" % (c["id"], c["len"], c["k"], c["survivor"], c["natt"], c["observe"]) for c in cases]
+    lines = ["id=%d len=%d k=%d survivor=%d natt=%d nreg=%d observe=%s" % (c["id"], c["len"], c["k"], c["survivor"], c["natt"], c.get("nreg", 0), c["observe"]) for c in cases]
     recs, trace, rc, err = C.run_harness(binp, "crash", lines, env_extra={"VSHIM_SNDBUF": S}, timeout=900)
     by = {r["id"]: r for r in recs if r.get("kind") == "crash"}
     out = []
+    bad_cloexec = [r for r in trace if r["call"] in ("socketpair", "socket", "accept", "dup", "install", "shm_open", "epoll_create") and r.get("cloexec") == 0]
     for c in cases:
         so = C.ops_between(trace, "send %d.T" % c["id"], "\0never") or []
         sp = C.ops_between(trace, "send %d.P" % c["id"], "endsend %d.P" % c["id"]) or []
@@ -311,7 +327,7 @@ def run_crash(binp, S, cases):
                 ch["t_follow"] += 1
             elif o["call"] == "close" and o["fd"] == tx:
                 ch["t_closed_tx"] = True
-        out.append({"case": c, "rec": by.get(c["id"]), "child": ch, "stderr": err if c["id"] not in by else ""})
+        out.append({"case": c, "rec": by.get(c["id"]), "child": ch, "stderr": err if c["id"] not in by else "", "bad_cloexec": bad_cloexec})
     return out
 
 
@@ -331,10 +347,22 @@ def check_C12(chk):
                     ncalls = 1 + (1 if npk == 1 else 3 + npk) + natt + 1
                     for k in range(0, ncalls + 2):
                         for surv in (0, 1):
-                            cases.append({"id": next(nid), "len": L, "k": k, "survivor": surv, "natt": natt, "observe": observe, "npk": npk, "S": S})
+                            cases.append({"id": next(nid), "len": L, "k": k, "survivor": surv, "natt": natt, "nreg": 2 if (natt and k % 2) else 0, "observe": observe, "npk": npk, "S": S})
+            if observe == "timeout":
+                # a timed receive on the connected, idle channel right after the crash (the survivor stays silent)
+                for npk, L in shapes.items():
+                    for k in range(0, 1 + (1 if npk == 1 else 3 + npk) + 2):
+                        cases.append({"id": next(nid), "len": L, "k": k, "survivor": 1, "natt": 0, "nreg": 0, "observe": "timeout_idle", "npk": npk, "S": S})
             jobs.append((S, cases))
     with concurrent.futures.ThreadPoolExecutor(max_workers=8) as ex:
         items = [it for r in ex.map(lambda j: run_crash(bins["default"], j[0], j[1]), jobs) for it in r]
+    # the sending process may exec something while a send is in progress: nothing it creates for the transfer may be inheritable
+    # (a child holding the dedicated channel would keep a receiver waiting after the sender has died)
+    badc = [r for it in items[:1] + items[len(items) // 2:len(items) // 2 + 1] + items[-1:] for r in it.get("bad_cloexec", [])]
+    if badc:
+        chk.failing_input("crash driver: the sending process created a descriptor without close-on-exec (%s): a program it execs during a multi-fragment send would keep the "
+                          "transfer's channel open after the sender has died, and the receiver waiting" % {k: badc[0].get(k) for k in ("call", "a", "b", "fd")},
+                          {"calls": badc[:4]}, key="c12cloexec:%s" % badc[0]["call"])
     fails = []
     for it in items:
         why = crash_oracle(it)
@@ -345,7 +373,7 @@ def check_C12(chk):
         key = "S=%d npk=%d len=%d k=%d survivor=%d natt=%d observe=%s" % (c["S"], c["npk"], c["len"], c["k"], c["survivor"], c["natt"], c["observe"])
         chk.failing_input(why, {"input": c, "child_progress": it["child"], "observed": it["rec"]}, key=key)
     header = "From Coq Require Import List Bool.\nFrom IPC Require Import Crash CrashCheck.\nImport ListNotations.\n"
-    todo = [(i, crash_model_term(it)) for i, it in enumerate(items) if it["rec"] is not None and not it["rec"]["hang"]]
+    todo = [(i, crash_model_term(it)) for i, it in enumerate(items) if it["rec"] is not None and not it["rec"]["hang"] and it["case"]["observe"] != "timeout_idle"]
     res, errors = C.coq_eval_sharded(header, todo, lambda p: "Eval vm_compute in (%d, %s)." % p, "c12")
     bad = [items[i] for i, _ in todo if res.get(i) != "true"]
     cov = chk.coverage
